@@ -2,7 +2,7 @@ T = lambda q, t: {"quick": q, "thorough": t}
 
 SPEC = dict(
     level="exploration",
-    technique="totality monitor: generated/hostile database files, queries and option values through load + every search entry point in child processes (recover + pre-flushed event log + watchdog)",
+    technique="totality monitor: generated/hostile database files, queries and option values through load + every search entry point in child processes (recover + pre-flushed event log + watchdog); thorough adds a coverage-guided go test -fuzz workload (FuzzLoadSearch (file bytes x query x limit)) with the same oracles",
     level_text="Thousands of generated files (well-formed lists in block / JSON-flow / anchor styles with hostile strings incl. NUL, damaged and "
                "wrong-shape YAML, deep nesting, alias bombs, byte-level mutations, random bytes) are loaded and searched with hostile queries "
                "(NUL, invalid UTF-8, 1000-byte strings) and extreme option values through SearchUniversal, Search, the pipeline / deprecated / "
@@ -10,7 +10,8 @@ SPEC = dict(
                "to disk before the call so a process-fatal error leaves its input; a watchdog firing is inconclusive unless the call, re-run "
                "alone with 5x the budget, still does not return. Error classes and entry fidelity of well-formed lists are asserted.",
     level_note="Ordinary build (no cgo/unsafe in the module or its dependencies, so sanitizers add nothing). Child memory capped with ulimit -v.",
-    engines=[dict(name="totality", shards=T(16, 16), timeout=T(1200, 7200))],
+    engines=[dict(name="totality", shards=T(16, 16), timeout=T(1200, 7200)),
+             dict(name="gofuzz-FuzzLoadSearch", kind="gofuzz", target="FuzzLoadSearch", fuzztime=T(0, "90s"))],
     rule="case = one generated file (then 8-10 (query, options) pairs x 10 entry points on the loaded database); non-trivial = a well-formed list whose "
          "expected entries are known to the generator and were compared; distinct by file content.",
     floors=T({"files-wellformed-block": 150, "files-wellformed-flow": 150, "files-wellformed-utf16": 100, "files-wrong-shape": 150, "files-damaged": 150, "files-mutated": 150,
